@@ -1,1 +1,3 @@
-import ShootVerif.Basic.Sexp
+-- root of the library: every property module (so that `lake build` checks all proofs)
+import ShootVerif.Props.C02
+import ShootVerif.Props.C20
